@@ -152,7 +152,7 @@ def handle (args : List String) : String :=
     | _, _, _, _, _ => "bad-arg"
   | ["ccittValidate", columns, rows, damaged] =>
     match columns.toInt?, rows.toInt?, damaged.toInt? with
-    | some c, some r, some d => showErr (pdf_FilterCCITTFax_validate ⟨0, false, false, c, r, false, false, d⟩ 0)
+    | some c, some r, some d => orPanic ((pdf_FilterCCITTFax_validate ⟨0, false, false, c, r, false, false, d⟩ 0).map showErr)
     | _, _, _ => "bad-arg"
   | ["paeth", a, b, c] =>
     match a.toNat?, b.toNat?, c.toNat? with
